@@ -753,6 +753,55 @@ func lineText(data []byte, idx int) (string, bool) {
 	return string(data[start:end]), true
 }
 
+// quoteCoversIndex: "" if some occurrence of the quote in data, extended over the blanks on its
+// left and up to the next line break on its right, contains idx.
+func quoteCoversIndex(data []byte, idx int, quote string) string {
+	q := strings.TrimLeft(quote, " \t\r\n")
+	cut := false
+	if strings.HasSuffix(q, "...") {
+		q, cut = strings.TrimSuffix(q, "..."), true
+	}
+	if idx >= len(data) {
+		return "" // end of file: either the last line or the 'unknown' empty quote
+	}
+	if q == "" {
+		// an empty quote: acceptable only if the position is on a blank stretch or a line break
+		b := data[idx]
+		if b == ' ' || b == '\t' || b == '\r' || b == '\n' || cut {
+			return ""
+		}
+		return "the quote is empty but the position holds text"
+	}
+	text := string(data)
+	for from := 0; ; {
+		i := strings.Index(text[from:], q)
+		if i < 0 {
+			break
+		}
+		s := from + i
+		e := s + len(q)
+		lo := s
+		for lo > 0 && (data[lo-1] == ' ' || data[lo-1] == '\t') {
+			lo--
+		}
+		hi := e
+		if cut {
+			for hi < len(data) && data[hi] != '\n' && data[hi] != '\r' {
+				hi++
+			}
+		}
+		// the position may also be the line break that ends the quoted text
+		for hi < len(data) && (data[hi] == '\r' || data[hi] == '\n') && hi-e < 2 {
+			hi++
+		}
+		if idx >= lo && idx <= hi {
+			return ""
+		}
+		from = s + 1
+	}
+	return "no occurrence of the quoted text in the file contains the error position"
+}
+
 func oracleC07(c *Case, o *Outcome, log []Access, mr *modelResult, treeAsserted bool, rootPath string, rootData []byte, res *Result) (class, sig, msg string) {
 	if o.Err == nil {
 		return "", "", ""
@@ -803,6 +852,13 @@ func oracleC07(c *Case, o *Outcome, log []Access, mr *modelResult, treeAsserted 
 	wantLine, wantCol, ok := lineCol(data, e.Index)
 	if !ok {
 		res.count("c07:line-column-skipped(mixed-line-endings)", 1)
+		// Which bytes end a line is ambiguous in a file that mixes conventions, so line, column and
+		// the exact extent of the quote are not asserted. One thing is not ambiguous: the quoted
+		// text has to be text of the file that CONTAINS the error position (modulo the blanks
+		// trimmed on its left and a "..." cut).
+		if m := quoteCoversIndex(data, e.Index, e.Quote); m != "" {
+			return "wrong-quote", "wrong-quote", fmt.Sprintf("error at index %d of %q (mixed line endings) quotes %q: %s", e.Index, e.File, trunc(e.Quote, 120), m)
+		}
 	} else if e.Index < len(data) {
 		if e.Line != wantLine || e.Column != wantCol {
 			return "wrong-line-column", "wrong-line-column", fmt.Sprintf("error at index %d of %q reports line %d column %d; that index is on line %d column %d", e.Index, e.File, e.Line, e.Column, wantLine, wantCol)
@@ -897,47 +953,28 @@ func oracleC07(c *Case, o *Outcome, log []Access, mr *modelResult, treeAsserted 
 	return "wrong-trace", sig, fmt.Sprintf("the include trace of the error is [%s]; the include chains of the file instance(s) that were served these bytes are %s", strings.Join(got, " <- "), strings.Join(wants, " or "))
 }
 
-// staleIncludeLine: does the printed trace differ from instance in's chain ONLY in the line
-// numbers of ancestors, each wrong number being the line of ANOTHER INCLUDE directive that
-// an instance of the same including file executed earlier? (Mechanism of the recorded finding:
-// the trace handed to directives is cached per including file name.)
+// staleIncludeLine: is the printed trace the TRUE chain of another, earlier inclusion made
+// from a file with the same path as the failing instance's includer? (Mechanism of the
+// recorded finding K1: the trace handed to directives is cached per including file NAME, so a
+// later inclusion from that file - another line, or the same file reached through other
+// ancestors - gets the chain that was current when the cache entry was made.)
 func staleIncludeLine(got []string, in *Instance, errLine int, mr *modelResult) bool {
 	if in.Parent == nil {
 		return false
 	}
-	var chain []*Instance
-	for p := in; p.Parent != nil; p = p.Parent {
-		chain = append(chain, p)
-	}
-	if len(got) != len(chain)+1 || got[0] != fmt.Sprintf("%s:%d", in.Path, errLine) {
-		return false
-	}
-	differs := false
-	for i, p := range chain {
-		want := fmt.Sprintf("%s:%d", p.Parent.Path, p.AtLine)
-		if got[i+1] == want {
+	for _, x := range mr.instances {
+		if x == in || x.Parent == nil || x.ReadSeq >= in.ReadSeq || filepath.Clean(x.Parent.Path) != filepath.Clean(in.Parent.Path) {
 			continue
 		}
-		j := strings.LastIndexByte(got[i+1], ':')
-		if j < 0 || got[i+1][:j] != p.Parent.Path {
-			return false
+		w := []string{fmt.Sprintf("%s:%d", in.Path, errLine)}
+		for p := x; p.Parent != nil; p = p.Parent {
+			w = append(w, fmt.Sprintf("%s:%d", p.Parent.Path, p.AtLine))
 		}
-		if p.AtLine == 0 {
-			continue // line numbers of this file are not defined (mixed line endings)
+		if traceEqual(got, w) {
+			return true
 		}
-		// is it the line of an earlier INCLUDE executed from a file with this path?
-		found := false
-		for _, o := range mr.instances {
-			if o.Parent != nil && o.ReadSeq < p.ReadSeq && filepath.Clean(o.Parent.Path) == filepath.Clean(p.Parent.Path) && fmt.Sprint(o.AtLine) == got[i+1][j+1:] {
-				found = true
-			}
-		}
-		if !found {
-			return false
-		}
-		differs = true
 	}
-	return differs
+	return false
 }
 
 // traceEqual compares printed trace lines with expected ones; an expected line number 0 is a wildcard.
